@@ -385,3 +385,10 @@ PROPS["C07"]["streams"] = [G_COND, CH_COND, G_COND_RESOLVE, G_COND_EMPTY]
 # ------------------------------------------------------------------ C06: plans that are revised and then retracted
 CH_REPLAN = {"profile": "chaos", "opts": {"p_batch_loader": 0, "chaos_replan": True}}
 PROPS["C06"]["streams"] = PROPS["C06"]["streams"] + [CH_REPLAN]
+
+# ------------------------------------------------------------------ side-input conditionals outside C02
+# (the shape exposed two further defects, repaired by 4a344e1 and cad2521; see DESIGN section 6)
+for _p in ("C05", "C06", "C07", "C08", "C18"):
+    PROPS[_p]["streams"] = PROPS[_p]["streams"] + [G_SIDE]
+for _p in ("C06", "C07", "C18"):
+    PROPS[_p]["streams"] = PROPS[_p]["streams"] + [CH_SIDE]
